@@ -597,6 +597,45 @@ impl Sim {
             let ign = m_after.ignore_open_interest_for_usage_factor().unwrap();
             obs.require(ign == flags["ignore_open_interest_for_usage_factor"], "C16", "model_flag", || "flag=ignore_open_interest_for_usage_factor".into(), || format!("model ignore-OI flag {ign} vs key"));
         }
+        // closed-market parameter switch: what-if on the account's own bytes with MarketFlag::Closed set.
+        // The four closed-market settings replace their open-market counterparts exactly when
+        // `enable_market_closed_params` is set; every other parameter is unaffected by the closed state.
+        {
+            use gmsol_model::BorrowingFeeMarket;
+            use gmsol_utils::market::MarketFlag;
+            let mut mc = m_after;
+            mc.set_flag(MarketFlag::Closed, true);
+            let cview = model_view(&mc);
+            let open_view = {
+                let mut mo = m_after;
+                mo.set_flag(MarketFlag::Closed, false);
+                model_view(&mo)
+            };
+            let use_closed = flags["enable_market_closed_params"];
+            for (name, got) in &cview {
+                let want = match *name {
+                    "borrowing_fee_base_factor_for_long" | "borrowing_fee_base_factor_for_short" if use_closed => vals["market_closed_borrowing_fee_base_factor"],
+                    "borrowing_fee_above_optimal_usage_factor_for_long" | "borrowing_fee_above_optimal_usage_factor_for_short" if use_closed => vals["market_closed_borrowing_fee_above_optimal_usage_factor"],
+                    "min_collateral_factor_for_liquidation" => {
+                        let raw = if use_closed { vals["market_closed_min_collateral_factor_for_liquidation"] } else { vals["min_collateral_factor_for_liquidation"] };
+                        if raw == 0 {
+                            vals["min_collateral_factor"]
+                        } else {
+                            raw
+                        }
+                    }
+                    _ => open_view[name],
+                };
+                obs.require(*got == want, "C16", "closed_market_parameter", || format!("param={name},enabled={use_closed}"), || format!("closed market (enable_market_closed_params={use_closed}): model parameter {name} = {got}, expected {want}"));
+            }
+            let skip = mc.borrowing_fee_params().unwrap().skip_borrowing_fee_for_smaller_side();
+            let want = if use_closed { flags["market_closed_skip_borrowing_fee_for_smaller_side"] } else { flags["skip_borrowing_fee_for_smaller_side"] };
+            obs.require(skip == want, "C16", "closed_market_flag", || format!("flag=skip_borrowing_fee_for_smaller_side,enabled={use_closed}"), || format!("closed market (enable_market_closed_params={use_closed}): model skip flag {skip}, expected {want}"));
+            obs.probe(if use_closed { "c16_closed_switch_enabled_checked" } else { "c16_closed_switch_disabled_checked" });
+            if flags["market_closed_skip_borrowing_fee_for_smaller_side"] != flags["skip_borrowing_fee_for_smaller_side"] {
+                obs.probe("c16_closed_skip_flags_differ");
+            }
+        }
         // nothing but the config region of the account changed
         let a = &pre.accounts[market].data;
         let b = &self.w.accounts[market].data;
